@@ -605,6 +605,10 @@ void prop(const Case& cs) {
     }
     fam::Bytes img = obj->bytes(0, v);
     Ctx c{fn, v, img};
+    {  // both writers produce the documented layout: the stream form is the same image, byte for byte
+      const std::string st = obj->stream(v);
+      VF_CHECK(st.size() == img.size() && std::memcmp(st.data(), img.data(), img.size()) == 0, "stream-image-equals-bytes-image", WHO << "serialize(ostream) writes " << st.size() << " bytes, serialize() " << img.size() << ", or they differ" << IMG);
+    }
     switch (f) {
       case fam::F_THETA: chk_theta(c, static_cast<fam::ThetaObj&>(*obj)); break;
       case fam::F_TUPLE: chk_tuple(c, static_cast<fam::TupleObj&>(*obj)); break;
